@@ -13,8 +13,10 @@ from .. import core, tlc
 from ..core import Report
 from . import g1
 
-CONFIGS = {"quick": ["GenG1_cfg_q.cfg", "GenG1_syms_q.cfg", "GenG1_cfi_q.cfg", "GenG1_zero_q.cfg"],
-           "thorough": ["GenG1_cfg_t.cfg", "GenG1_syms_t.cfg", "GenG1_fn_q.cfg", "GenG1_cfi_q.cfg", "GenG1_ann_q.cfg", "GenG1_zero_q.cfg"]}
+CONFIGS = {"quick": ["GenG1_cfg_q.cfg", "GenG1_syms_q.cfg", "GenG1_cfi_q.cfg", "GenG1_zero_q.cfg",
+                     "GenG1_cfg_arm64_q.cfg"],
+           "thorough": ["GenG1_cfg_t.cfg", "GenG1_syms_t.cfg", "GenG1_fn_q.cfg", "GenG1_cfi_q.cfg", "GenG1_ann_q.cfg", "GenG1_zero_q.cfg",
+                        "GenG1_cfg_arm64_q.cfg", "GenG1_cfg_ia32_q.cfg"]}
 NCASES = {"quick": 400, "thorough": 3000}
 SEEDS = {"quick": [0, 1, 7, 4242], "thorough": [0, 1, 2, 3, 5, 7, 11, 13, 17, 19, 23, 4242, 99991, 123456, 31337, 65537]}
 PERMS = {"quick": 2, "thorough": 3}
@@ -86,6 +88,14 @@ def run(prop: str, tier: str, replay: str = None) -> int:
                             rq["patch"]["cons"] = {"preserve_caller_saved_registers": True,
                                                    "scratch_registers": 2, "clobbers_flags": True,
                                                    "clobbers_registers": ["rcx", "rdx"]}
+                # ARM64: two of three cases, alternately without scratch registers (the flags
+                # then go through a register the generator has to choose itself) and with one
+                if len(cases) % 3 != 1 and c["shape"].get("isa", "x64") == "arm64":
+                    for rq in c["reqs"]:
+                        if rq.get("patch", {}).get("kind"):
+                            rq["patch"]["cons"] = {"clobbers_flags": True,
+                                                   "scratch_registers": 0 if len(cases) % 3 == 0 else 1,
+                                                   "clobbers_registers": ["x0", "x1", "x2", "x30"]}
                 cases[c["id"]] = c
                 for p in range(PERMS[tier]):
                     d = dict(c)
